@@ -274,11 +274,13 @@ class ScanProgress:
         """`pos = suffix_pos`: suffix_pos - pos == len(suffix) >= 1 is maintained"""
         fn = self.fi.node
         tgt = None
+        decremented = {n.target.id for n in walk_no_nested(fn) if isinstance(n, ast.AugAssign) and isinstance(n.target, ast.Name) and not isinstance(n.op, ast.Add)}
         for n in walk_no_nested(fn):
-            if isinstance(n, ast.Assign) and len(n.targets) == 1 and isinstance(n.targets[0], ast.Name) and n.targets[0].id == self.var and isinstance(n.value, ast.Name) and n.value.id not in ("span_end",):
+            if isinstance(n, ast.Assign) and len(n.targets) == 1 and isinstance(n.targets[0], ast.Name) and n.targets[0].id == self.var and isinstance(n.value, ast.Name) and n.value.id in decremented:
                 tgt = n.value.id
+        self.counter = tgt
         if tgt is None:
-            return True, "no `pos = <counter>` update present"
+            return True, "no `pos = <counter>` update with a counter that is also decremented"
         P = tgt
         inits = [n for n in walk_no_nested(fn) if isinstance(n, ast.Assign) and len(n.targets) == 1 and isinstance(n.targets[0], ast.Name) and n.targets[0].id == P]
         if len(inits) != 1 or not (isinstance(inits[0].value, ast.BinOp) and isinstance(inits[0].value.op, ast.Add) and isinstance(inits[0].value.left, ast.Name) and inits[0].value.left.id == self.var and isinstance(inits[0].value.right, ast.Constant) and isinstance(inits[0].value.right.value, int) and inits[0].value.right.value >= 1):
@@ -343,10 +345,8 @@ class ScanProgress:
         for n in walk_no_nested(node_ast):
             if isinstance(n, ast.AugAssign) and isinstance(n.target, ast.Name) and n.target.id == v:
                 touched = True
-                if isinstance(n.op, ast.Add) and isinstance(n.value, ast.Constant) and isinstance(n.value.value, int) and n.value.value > 0:
-                    result = True
-                elif isinstance(n.op, ast.Add) and isinstance(n.value, ast.Call) and ast.unparse(n.value.func) == "len" and len(n.value.args) == 1 and ast.unparse(n.value.args[0]) in facts:
-                    result = True  # += len(x) on a path where x is known to be non-empty
+                if isinstance(n.op, ast.Add) and (self.nn(n.value, facts) or 0) >= 1:
+                    result = True  # += k (k >= 1), += len(x) on a path where x is known to be non-empty, += <local known positive>
                 else:
                     return None
             elif isinstance(n, ast.Assign) and len(n.targets) == 1 and isinstance(n.targets[0], ast.Tuple) and any(isinstance(t, ast.Name) and t.id == v for t in n.targets[0].elts) and isinstance(n.value, ast.Call) and isinstance(n.value.func, ast.Name):
@@ -359,14 +359,9 @@ class ScanProgress:
                     return None
             elif isinstance(n, ast.Assign) and any(isinstance(t, ast.Name) and t.id == v for t in n.targets):
                 touched = True
-                val = ast.unparse(n.value)
-                if isinstance(n.value, ast.BinOp) and isinstance(n.value.op, ast.Add) and any(isinstance(a, ast.Name) and a.id == v for a in (n.value.left, n.value.right)) and any(isinstance(a, ast.Constant) and isinstance(a.value, int) and a.value > 0 for a in (n.value.left, n.value.right)):
-                    result = True  # pos = pos + k
-                elif val == "match.end()" and "match" in facts and self._match_from_pos():
-                    result = True
-                elif val == "span_end" and self.fence_ok and any(f.startswith(f"{v} == fence_spans[") and f.endswith("][0]") for f in facts) and self._span_end_from_same_span():
-                    result = True
-                elif isinstance(n.value, ast.Name) and val != "span_end" and self.lockstep_ok and self.lockstep_why.startswith("`"):
+                if (self.lb(n.value, facts) or 0) >= 1:
+                    result = True  # pos = <expression known to exceed pos on this path>
+                elif isinstance(n.value, ast.Name) and n.value.id == self.counter and self.lockstep_ok:
                     result = True
                 else:
                     return None
@@ -410,43 +405,155 @@ class ScanProgress:
                 return False
         return True
 
-    def _match_from_pos(self) -> bool:
-        if getattr(self, "_mfp", None) is None:
-            self._mfp = self._match_from_pos_uncached()
-        return self._mfp
+    def _match_from_pos(self, m: str = "match") -> bool:
+        """every binding of the match object is `<pattern>.match(content, pos)` (anchored at pos; the patterns' non-nullability is
+        R20.2's obligation)"""
+        cache = self.__dict__.setdefault("_mfp", {})
+        if m not in cache:
+            ds = [n.value for n in walk_no_nested(self.fi.node) if (isinstance(n, ast.Assign) and any(isinstance(t, ast.Name) and t.id == m for t in n.targets)) or (isinstance(n, ast.NamedExpr) and isinstance(n.target, ast.Name) and n.target.id == m)]
+            cache[m] = bool(ds) and all(isinstance(d, ast.Call) and isinstance(d.func, ast.Attribute) and d.func.attr == "match" and ast.unparse(d.func.value) == "pattern" and len(d.args) == 2 and ast.unparse(d.args[0]) == "content" and ast.unparse(d.args[1]) == self.var and not d.keywords for d in ds)
+        return cache[m]
 
-    def _match_from_pos_uncached(self) -> bool:
-        for n in walk_no_nested(self.fi.node):
-            if isinstance(n, ast.Assign) and len(n.targets) == 1 and isinstance(n.targets[0], ast.Name) and n.targets[0].id == "match":
-                if ast.unparse(n.value) != f"pattern.match(content, {self.var})":
-                    return False
-        return True
+    # -- lower bounds relative to pos (facts `X > pos`, `X >= pos`, `X > 0` carried along the path) ----------------
+    def nn(self, e: ast.AST, facts: frozenset[str]) -> int | None:
+        """k such that the integer expression e >= k >= 0 on this path, None when unknown"""
+        if isinstance(e, ast.Constant) and isinstance(e.value, int) and not isinstance(e.value, bool) and e.value >= 0:
+            return e.value
+        if isinstance(e, ast.Call) and ast.unparse(e.func) == "len" and len(e.args) == 1:
+            a = ast.unparse(e.args[0])
+            return 1 if a in facts or f"{a} != ''" in facts else 0
+        if isinstance(e, ast.Name):
+            return 1 if (f"{e.id} > 0" in facts or f"{e.id} >= 1" in facts) else (0 if f"{e.id} >= 0" in facts else None)
+        if isinstance(e, ast.BinOp) and isinstance(e.op, ast.Add):
+            a, b = self.nn(e.left, facts), self.nn(e.right, facts)
+            return a + b if a is not None and b is not None else None
+        if isinstance(e, ast.BinOp) and isinstance(e.op, ast.Sub) and isinstance(e.right, ast.Name) and e.right.id == self.var:
+            return self.lb(e.left, facts)  # X - pos
+        if isinstance(e, ast.IfExp):
+            a, b = self.nn(e.body, facts | frozenset(_conjuncts(e.test, True))), self.nn(e.orelse, facts | frozenset(_conjuncts(e.test, False)))
+            return min(a, b) if a is not None and b is not None else None
+        if isinstance(e, ast.Call) and isinstance(e.func, ast.Name) and e.func.id == "max" and e.args and not e.keywords:
+            ks = [k for k in (self.nn(a, facts) for a in e.args) if k is not None]
+            return max(ks) if ks else None
+        if isinstance(e, ast.NamedExpr):
+            return self.nn(e.value, facts)
+        return None
 
-    def _span_end_from_same_span(self) -> bool:
-        if getattr(self, "_sefs", None) is None:
-            self._sefs = self._span_end_uncached()
-        return self._sefs
+    def lb(self, e: ast.AST, facts: frozenset[str]) -> int | None:
+        """k such that e >= pos + k on this path (pos not written since the facts were established), None when unknown"""
+        v = self.var
+        if isinstance(e, ast.Name):
+            if e.id == v:
+                return 0
+            return 1 if f"{e.id} > {v}" in facts else (0 if f"{e.id} >= {v}" in facts else None)
+        if isinstance(e, ast.BinOp) and isinstance(e.op, ast.Add):
+            for a, b in ((e.left, e.right), (e.right, e.left)):
+                ka, kb = self.lb(a, facts), self.nn(b, facts)
+                if ka is not None and kb is not None:
+                    return ka + kb
+            return None
+        if isinstance(e, ast.IfExp):
+            a, b = self.lb(e.body, facts | frozenset(_conjuncts(e.test, True))), self.lb(e.orelse, facts | frozenset(_conjuncts(e.test, False)))
+            return min(a, b) if a is not None and b is not None else None
+        if isinstance(e, ast.Call) and isinstance(e.func, ast.Name) and e.func.id == "max" and e.args and not e.keywords:
+            ks = [k for k in (self.lb(a, facts) for a in e.args) if k is not None]
+            return max(ks) if ks else None
+        if isinstance(e, ast.Call) and isinstance(e.func, ast.Name) and e.func.id == "min" and e.args and not e.keywords:
+            ks = [self.lb(a, facts) for a in e.args]
+            return min(ks) if all(k is not None for k in ks) else None  # type: ignore[type-var]
+        if isinstance(e, ast.NamedExpr):
+            return self.lb(e.value, facts)
+        if isinstance(e, ast.Call) and isinstance(e.func, ast.Attribute) and e.func.attr == "end" and not e.args and isinstance(e.func.value, ast.Name):
+            m = e.func.value.id
+            return 1 if (m in facts or f"{m} is not None" in facts) and self._match_from_pos(m) else None  # non-nullable match anchored at pos
+        if isinstance(e, ast.Subscript) and isinstance(e.slice, ast.Constant) and e.slice.value == 1 and self._is_guarded_span(e.value, facts):
+            return 1  # <span>[1] under pos == <span>[0]
+        return None
 
-    def _span_end_uncached(self) -> bool:
-        for n in walk_no_nested(self.fi.node):
-            if isinstance(n, ast.Assign) and len(n.targets) == 1 and isinstance(n.targets[0], ast.Tuple):
-                names = [ast.unparse(e) for e in n.targets[0].elts]
-                if len(names) >= 2 and names[1] == "span_end":
-                    v = n.value
-                    if isinstance(v, ast.Name):
-                        # a local bound once to the span (e.g. the argument of an inlined helper)
-                        ds = [a.value for a in walk_no_nested(self.fi.node) if isinstance(a, ast.Assign) and len(a.targets) == 1 and isinstance(a.targets[0], ast.Name) and a.targets[0].id == v.id]
-                        if len(ds) == 1:
-                            v = ds[0]
-                    return ast.unparse(v) == "fence_spans[fence_span_idx]"
-        return False
+    def _is_span(self, s: ast.AST) -> bool:
+        """s denotes one of the recorded fence spans: fence_spans[...], or a local only ever bound to one (index, loop target,
+        next() over iter(fence_spans))"""
+        if isinstance(s, ast.Subscript) and isinstance(s.value, ast.Name) and s.value.id == "fence_spans" and not isinstance(s.slice, ast.Slice):
+            return True
+        if not isinstance(s, ast.Name):
+            return False
+        fn = self.fi.node
+        defs = [a.value for a in walk_no_nested(fn) if isinstance(a, ast.Assign) and any(isinstance(t, ast.Name) and t.id == s.id for t in a.targets)]
+        loops = [f for f in walk_no_nested(fn) if isinstance(f, ast.For) and isinstance(f.target, ast.Name) and f.target.id == s.id]
+        others = [a for a in walk_no_nested(fn) if (isinstance(a, (ast.AugAssign, ast.AnnAssign, ast.NamedExpr)) and isinstance(a.target, ast.Name) and a.target.id == s.id) or (isinstance(a, ast.Assign) and any(isinstance(t, (ast.Tuple, ast.List)) and any(isinstance(x, ast.Name) and x.id == s.id for x in ast.walk(t)) for t in a.targets))]
+        if others or not (defs or loops):
+            return False
+
+        def span_iter(it: ast.AST) -> bool:
+            if isinstance(it, ast.Name) and it.id == "fence_spans":
+                return True
+            if isinstance(it, ast.Call) and isinstance(it.func, ast.Name) and it.func.id == "iter" and len(it.args) == 1:
+                return span_iter(it.args[0])
+            if isinstance(it, ast.Name):
+                ds = [a.value for a in walk_no_nested(fn) if isinstance(a, ast.Assign) and any(isinstance(t, ast.Name) and t.id == it.id for t in a.targets)]
+                return bool(ds) and all(span_iter(d) for d in ds if not isinstance(d, ast.Name) or d.id != it.id)
+            return False
+
+        for d in defs:
+            if isinstance(d, ast.Constant) and d.value is None:
+                continue
+            if isinstance(d, ast.Subscript) and self._is_span(d) :
+                continue
+            if isinstance(d, ast.Call) and isinstance(d.func, ast.Name) and d.func.id == "next" and 1 <= len(d.args) <= 2 and span_iter(d.args[0]) and (len(d.args) == 1 or (isinstance(d.args[1], ast.Constant) and d.args[1].value is None)):
+                continue
+            return False
+        return all(span_iter(f.iter) for f in loops)
+
+    def _is_guarded_span(self, s: ast.AST, facts: frozenset[str]) -> bool:
+        if not self.fence_ok:
+            return False
+        txt = ast.unparse(s)
+        if not (f"{self.var} == {txt}[0]" in facts or f"{txt}[0] == {self.var}" in facts):
+            return False
+        return self._is_span(s)
+
+    def gen(self, node, facts: frozenset[str]) -> set[str]:
+        """facts established by one statement: `X > pos` / `X >= pos` / `X > 0` for the local X it writes"""
+        out: set[str] = set()
+        v = self.var
+        a = node.ast
+        if node.kind != "stmt" or a is None:
+            return out
+        if isinstance(a, ast.AnnAssign) and a.value is not None and isinstance(a.target, ast.Name):
+            tgts, val = [a.target], a.value
+        elif isinstance(a, ast.Assign):
+            tgts, val = a.targets, a.value
+        elif isinstance(a, ast.AugAssign) and isinstance(a.target, ast.Name) and a.target.id != v and isinstance(a.op, ast.Add):
+            k = self.nn(a.value, facts)
+            if k is not None:
+                x = a.target.id
+                if f"{x} > {v}" in facts or (f"{x} >= {v}" in facts and k >= 1):
+                    out.add(f"{x} > {v}")
+                elif f"{x} >= {v}" in facts:
+                    out.add(f"{x} >= {v}")
+                if f"{x} > 0" in facts or (f"{x} >= 0" in facts and k >= 1):
+                    out.add(f"{x} > 0")
+            return out
+        else:
+            return out
+        for t in tgts:
+            if isinstance(t, ast.Name) and t.id != v:
+                k = self.lb(val, facts)
+                if k is not None:
+                    out.add(f"{t.id} > {v}" if k >= 1 else f"{t.id} >= {v}")
+                k2 = self.nn(val, facts)
+                if k2 is not None and not isinstance(val, ast.Constant):
+                    out.add(f"{t.id} > 0" if k2 >= 1 else f"{t.id} >= 0")
+            elif isinstance(t, (ast.Tuple, ast.List)) and len(t.elts) >= 2 and isinstance(t.elts[1], ast.Name) and t.elts[1].id != v and not any(isinstance(x, ast.Starred) for x in t.elts[:2]) and self._is_guarded_span(val, facts):
+                out.add(f"{t.elts[1].id} > {v}")  # start, end, ... = <span> under pos == <span>[0]: end > start
+        return out
 
     # -- path search ------------------------------------------------------------------------------
     def search(self, head: int) -> list[list[int]]:
         """paths (as node lists) from the loop head back to it on which pos is not strictly increased"""
         cfg = self.cfg
         hn = cfg.nodes[head]
-        ex = Explorer(cfg)
+        ex = Explorer(cfg, gen=self.gen)
         conj0 = frozenset(_conjuncts(hn.ast, True))
         starts = [(s, conj0, ()) for s, lab in cfg.succ[head] if lab == "t"]
         results = []
@@ -511,6 +618,8 @@ def check_scanner(run: Run) -> None:
     head = heads[0]
     run.instance("R20.1", lx.loc(head.owner), f"fence-span update: {sp_.fence_why}", ok=sp_.fence_ok)  # type: ignore[arg-type]
     run.instance("R20.1", lx.loc(head.owner), f"counter update: {sp_.lockstep_why}", ok=sp_.lockstep_ok)  # type: ignore[arg-type]
+    if not sp_.fence_ok and sp_.fence_why in ("_normalize_with_fence_detection not found", "no fence_spans.append", "appended span is not a tuple (start, end, ...)"):
+        raise AnalysisError(f"_normalize_with_fence_detection: the construction of the fence spans is not in a form this check reads ({sp_.fence_why}); `end > start` for every span is not decided")
     if not sp_.fence_ok:
         run.violation("R20.1", lx, "_normalize_with_fence_detection", "fence span (start, end) with end > start", f"the invariant behind `pos = span_end` does not hold: {sp_.fence_why}")
     if not sp_.lockstep_ok:
@@ -1194,8 +1303,36 @@ def _index_uses(node_ast: ast.AST, text_var: str):
             yield n
 
 
+def _range_bounded(idx: ast.AST, text_var: str) -> bool:
+    """the index is the target of an enclosing `for i in range([a,] len(text)[, step>0])` (statement or comprehension) that does
+    not write i itself"""
+    if not isinstance(idx, ast.Name):
+        return False
+
+    def rng(it: ast.AST) -> bool:
+        if not (isinstance(it, ast.Call) and isinstance(it.func, ast.Name) and it.func.id == "range" and 1 <= len(it.args) <= 3 and not it.keywords):
+            return False
+        stop = it.args[0] if len(it.args) == 1 else it.args[1]
+        if ast.unparse(stop) != f"len({text_var})":
+            return False
+        return len(it.args) < 3 or (isinstance(it.args[2], ast.Constant) and isinstance(it.args[2].value, int) and it.args[2].value > 0)
+
+    cur = getattr(idx, "_parent", None)
+    while cur is not None and not isinstance(cur, (ast.FunctionDef, ast.AsyncFunctionDef, ast.Lambda)):
+        if isinstance(cur, (ast.ListComp, ast.GeneratorExp, ast.SetComp, ast.DictComp)):
+            for g in cur.generators:
+                if isinstance(g.target, ast.Name) and g.target.id == idx.id:
+                    return rng(g.iter)
+        if isinstance(cur, ast.For) and isinstance(cur.target, ast.Name) and cur.target.id == idx.id:
+            return rng(cur.iter) and not any(idx.id in _assigned(s) for s in cur.body)
+        cur = getattr(cur, "_parent", None)
+    return False
+
+
 def _bounded(idx: ast.AST, facts: set[str], text_var: str) -> bool:
     itxt = ast.unparse(idx)
+    if _range_bounded(idx, text_var):
+        return True
     if f"{itxt} < len({text_var})" in facts or f"len({text_var}) > {itxt}" in facts:
         return True
     # `v - 1` below a position that was itself reached by guarded increments: needs a lower bound `v > ...` on the path
